@@ -10,7 +10,7 @@ from mbt import batch, tlc
 from sim import explore
 from sim.groupsim import run_group
 
-KEYS = ["a", "b", "id", "a:b", "env:A", "env:B", "env", "a/", "/a", "é", "a b", "env:", "popen", "ssh", "python", "x-y", "K", "env:é=", "a.b"]
+KEYS = ["a", "b", "id", "a:b", "env:A", "env:B", "env:a", "env:id", "A", "env", "a/", "/a", "é", "a b", "env:", "popen", "ssh", "python", "x-y", "K", "env:é=", "a.b"]
 VALS = [None, "", "1", "a=b", "/", "x/", "/x", " é", ":", "//", "a//b", "=", "==", "x y", "/usr/bin/python3 -u"]
 
 
